@@ -3,6 +3,7 @@ import RelicVerif.Lemmas.NtSmb
 import RelicVerif.Lemmas.NtSmbPrime
 import RelicVerif.Lemmas.NtSmbPrime2
 import RelicVerif.Lemmas.NtSmbInner
+import RelicVerif.Lemmas.NtSmbTrue
 
 namespace Relic.Props.C09
 open Relic.Model
@@ -23,7 +24,9 @@ theorem smb_jac_single_exact_zero (n d : ℕ) (hd : d % 2 = 1) : NtSmb.jacSingle
    approximations moves the TRUE pair (t0, t1) by the same elementary moves — swap / subtract / halve — up to the sign of the
    results, with the t updates read from low bits that agree with the true ones, that the combination is exactly divisible by 2^s,
    that `t ^= t1->dp[0]` accounts for (-1 / t1) when t0 came out negative, and termination of the outer loop; the no-wrap bound of the
-   cofactors and det = ± 2^s ARE proved: smb_jac_inner_matrix below):
+   cofactors and det = ± 2^s ARE proved: smb_jac_inner_matrix below; so are the parity agreement, the exact divisibility by 2^s and the sign-repair
+   identity: smb_jac_inner_true, smb_jac_combination_exact, smb_jac_sign_repair.  OPEN: the true pair is never negative in both components at a
+   swap — needed for the reciprocity update on signed residues —, the assembly, and termination):
 
    theorem smb_jac_exact (w : ℕ) (a b : ℤ) (hw : 8 ≤ w) (hb : 0 < b) (hodd : b % 2 = 1) :
        NtSmb.jac w a b = some (jacobiSym a b.toNat)
@@ -104,5 +107,37 @@ theorem smb_jac_inner_matrix (w n d t : ℕ) (hw : 4 ≤ w) :
      -(2 : ℤ) ^ (w / 2 - 2) ≤ st.ci ∧ st.ci ≤ 2 ^ (w / 2 - 2) ∧ -(2 : ℤ) ^ (w / 2 - 2) ≤ st.di ∧ st.di ≤ 2 ^ (w / 2 - 2)) ∧
     (st.ai * st.di - st.bi * st.ci = 2 ^ (w / 2 - 2) ∨ st.ai * st.di - st.bi * st.ci = -2 ^ (w / 2 - 2)) :=
   Relic.Lemmas.NtSmb.inner_from_identity w n d t hw
+
+/-- PARITY AGREEMENT + EXACT DIVISIBILITY, general form: if the cofactors are within ±2^k, the combinations of the true pair (X, Y) equal
+    2^k·(n - 2^m c), 2^k·(d - 2^m e) (the approximation words agree with the true values in their low m bits) and i ≤ m steps are made
+    (k + i + 2 ≤ w), then afterwards the combinations equal 2^(k+i)·(n' - 2^(m-i) c'), 2^(k+i)·(d' - 2^(m-i) e'): divisible by the power of two
+    consumed, quotients agreeing with the new approximation words in the low m - i bits; d' stays odd. -/
+theorem smb_jac_inner_true (w : ℕ) (X Y : ℤ) (fuel i k m : ℕ) (st : NtSmb.Inner) (hf : i ≤ fuel) (hw : k + i + 2 ≤ w) (him : i ≤ m)
+    (hb : Relic.Lemmas.NtSmb.Bd (2 ^ k) st) (hinv : Relic.Lemmas.NtSmb.TInv X Y k m st) :
+    Relic.Lemmas.NtSmb.Bd (2 ^ (k + i)) (NtSmb.inner w fuel i st) ∧ Relic.Lemmas.NtSmb.TInv X Y (k + i) (m - i) (NtSmb.inner w fuel i st) :=
+  Relic.Lemmas.NtSmb.inner_true w X Y fuel i k m st hf hw him hb hinv
+
+/-- One outer iteration of bn_smb_jac on a true pair (t0, t1) with t1 odd (w ≥ 4): with (n, d) = the approximation words the model builds
+    (`approx`: exact low half digit) and st = the state after the s = w/2 - 2 steps,
+      ai·t0 + bi·t1 = 2^s · (st.n - 2^(w/2 - s)·c)   and   ci·t0 + di·t1 = 2^s · (st.d - 2^(w/2 - s)·e),   st.d odd:
+    both combinations are EXACTLY divisible by 2^s (the bn_rsh by s loses nothing) and the quotients — the next true pair up to sign —
+    agree with the final approximation words modulo 2^(w/2 - s) = 4 (w even); in particular the next t1 is odd. -/
+theorem smb_jac_combination_exact (w t0 t1 i t : ℕ) (hw : 4 ≤ w) (h1 : t1 % 2 = 1) :
+    let st := NtSmb.inner w (w / 2 - 2) (w / 2 - 2)
+      { n := (NtSmb.approx w t0 t1 i).1, d := (NtSmb.approx w t0 t1 i).2.1, t := t, ai := 1, bi := 0, ci := 0, di := 1, swapped := false }
+    ∃ c e : ℤ, st.ai * (t0 : ℤ) + st.bi * (t1 : ℤ) = 2 ^ (w / 2 - 2) * ((st.n : ℤ) - 2 ^ (w / 2 - (w / 2 - 2)) * c) ∧
+               st.ci * (t0 : ℤ) + st.di * (t1 : ℤ) = 2 ^ (w / 2 - 2) * ((st.d : ℤ) - 2 ^ (w / 2 - (w / 2 - 2)) * e) ∧ st.d % 2 = 1 :=
+  Relic.Lemmas.NtSmb.outer_combination w t0 t1 i t hw h1
+
+/-- the approximation words carry the exact low half digit of the true values -/
+theorem smb_jac_approx_low (w t0 t1 i : ℕ) :
+    (NtSmb.approx w t0 t1 i).1 % 2 ^ (w / 2) = t0 % 2 ^ (w / 2) ∧ (NtSmb.approx w t0 t1 i).2.1 % 2 ^ (w / 2) = t1 % 2 ^ (w / 2) :=
+  Relic.Lemmas.NtSmb.approx_low w t0 t1 i
+
+/-- SIGN REPAIR: for odd d and digit width ≥ 2, (-x / d) = (-1)^(bit 1 of d mod 2^w) · (x / d) — what `t ^= t1->dp[0]` records when t0 came
+    out negative (and negating t1 needs no record since the symbol is taken with |t1|). -/
+theorem smb_jac_sign_repair (w : ℕ) (hw : 2 ≤ w) (x : ℤ) (d : ℕ) (hd : d % 2 = 1) :
+    jacobiSym (-x) d = (if (d % 2 ^ w).testBit 1 then -1 else 1) * jacobiSym x d :=
+  Relic.Lemmas.NtSmb.jac_neg_lowdigit w hw x hd
 
 end Relic.Props.C09
